@@ -1,6 +1,7 @@
 package main
 
 import (
+	"bytes"
 	"fmt"
 	"strconv"
 	"strings"
@@ -25,8 +26,11 @@ type rec struct {
 	Addr      string            `json:"addr"`
 	Meta      string            `json:"meta"`
 	Labels    string            `json:"-"`
-	LW        float64           `json:"leader_weight"`
-	RW        float64           `json:"region_weight"`
+	LastHB    int64             `json:"last_heartbeat,omitempty"`
+	pb        *metapb.Store
+	raw       []byte
+	LW        float64 `json:"leader_weight"`
+	RW        float64 `json:"region_weight"`
 }
 
 type snap map[uint64]*rec
@@ -35,23 +39,54 @@ func mkRec(meta *metapb.Store, lw, rw float64) *rec {
 	b, _ := meta.Marshal()
 	cp := &metapb.Store{}
 	_ = cp.Unmarshal(b)
+	hb := cp.LastHeartbeat
 	cp.LastHeartbeat = 0
+	raw, _ := cp.Marshal()
 	return &rec{ID: cp.GetId(), State: cp.GetState(), Destroyed: cp.GetPhysicallyDestroyed(), Addr: cp.GetAddress(), Meta: cp.String(),
-		Labels: fmt.Sprint(cp.GetLabels()), LW: lw, RW: rw}
+		Labels: fmt.Sprint(cp.GetLabels()), LW: lw, RW: rw, LastHB: hb, pb: cp, raw: raw}
 }
 
-// diffClass names the first field in which two records differ.
+func labelsEqual(a, b []*metapb.StoreLabel) bool {
+	if len(a) != len(b) {
+		return false
+	}
+	for i := range a {
+		if a[i].GetKey() != b[i].GetKey() || a[i].GetValue() != b[i].GetValue() {
+			return false
+		}
+	}
+	return true
+}
+
+// diffClass names the first field in which two records differ. The comparison is element-wise on
+// the decoded records (plus the encoded form as a safety net for fields not listed), never through
+// a rendering in which two different values could look alike; weights are compared numerically.
 func diffClass(a, b *rec) string {
+	x, y := a.pb, b.pb
 	switch {
-	case a.State != b.State:
+	case x.GetState() != y.GetState():
 		return "state"
-	case a.Destroyed != b.Destroyed:
+	case x.GetPhysicallyDestroyed() != y.GetPhysicallyDestroyed():
 		return "physically-destroyed"
-	case a.Addr != b.Addr:
+	case x.GetAddress() != y.GetAddress():
 		return "address"
-	case a.Labels != b.Labels:
+	case x.GetStatusAddress() != y.GetStatusAddress():
+		return "status-address"
+	case x.GetPeerAddress() != y.GetPeerAddress():
+		return "peer-address"
+	case !labelsEqual(x.GetLabels(), y.GetLabels()):
 		return "labels"
-	case a.Meta != b.Meta:
+	case x.GetVersion() != y.GetVersion():
+		return "version"
+	case x.GetGitHash() != y.GetGitHash():
+		return "git-hash"
+	case x.GetStartTimestamp() != y.GetStartTimestamp():
+		return "start-timestamp"
+	case x.GetDeployPath() != y.GetDeployPath():
+		return "deploy-path"
+	case x.GetId() != y.GetId():
+		return "id"
+	case !bytes.Equal(a.raw, b.raw):
 		return "other-meta"
 	case !a.sameWeight(b):
 		return "weight"
@@ -59,7 +94,9 @@ func diffClass(a, b *rec) string {
 	return ""
 }
 
-func (a *rec) sameMeta(b *rec) bool   { return a.Meta == b.Meta }
+func (a *rec) sameMeta(b *rec) bool {
+	return bytes.Equal(a.raw, b.raw) && labelsEqual(a.pb.GetLabels(), b.pb.GetLabels())
+}
 func (a *rec) sameWeight(b *rec) bool { return a.LW == b.LW && a.RW == b.RW }
 
 // served = what the cluster serves.
@@ -600,6 +637,9 @@ func (e *env) judge(hs *historyState, st *step, f *faultPlan, md *model, prev, c
 			r.Violation("stored-differs-from-served:weight:"+after, fmt.Sprintf("store %d %s: stored weights %v/%v served %v/%v", id, after, s.LW, s.RW, c.LW, c.RW), wit())
 			md.dirtyWeight[id] = true
 			continue
+		}
+		if s.LastHB > c.LastHB {
+			r.Count("stored_last_heartbeat_ahead_of_served_counted_only", 1)
 		}
 		r.Count("compare_stored_equals_served", 1)
 	}
